@@ -6,6 +6,7 @@ import (
 	"fmt"
 	"os"
 
+	"verif/engines/calls"
 	"verif/engines/codec"
 	"verif/engines/limits"
 	"verif/engines/mount"
@@ -27,8 +28,10 @@ var registry = map[string]entry{
 	"C08": {"limits", "exploration", limits.RunC08, limits.Replay},
 	"C12": {"stress", "exploration", stress.RunC12, nil},
 	"C13": {"stress", "exploration", stress.RunC13, nil},
+	"C15": {"calls", "fault_enumeration", calls.RunC15, calls.Replay},
 	"C16": {"route", "exploration", route.RunC16, route.ReplayC16},
 	"C17": {"codec", "exploration", codec.Run, codec.Replay},
+	"C18": {"calls", "exploration", calls.RunC18, calls.Replay},
 	"C19": {"route", "exploration", route.RunC19, route.ReplayC19},
 	"C20": {"mount", "exploration", mount.Run, mount.Replay},
 }
